@@ -212,3 +212,15 @@ Theorem C13_nonvacuous :
   /\ wf_from nonshared_b nofail [] false w1_init ([Checkpoint; Evict 7; Pipeline 9 1 None false] ++ [Rollback 0]) = true.
 Proof. exact session_nonvacuous. Qed.
 Print Assumptions C13_nonvacuous.
+
+(** the model distinguishes what a pod is charged on nodes with different GPU
+    memory (a gpu-memory pod of 50 MiB is half a GPU on a 100 MiB device and a
+    quarter on a 200 MiB one); the theorems above cover programs that move such
+    pods between nodes *)
+Theorem C13_hetero_nonvacuous :
+  wf_from any_task nofail [] false w11_init w11_prog = true
+  /\ exists p, get_pod w11_init 4 = Some p
+       /\ option_map gpu (alookup 1%positive (p_qtab p)) = Some 500%Z
+       /\ option_map gpu (alookup 2%positive (p_qtab p)) = Some 250%Z.
+Proof. exact hetero_nonvacuous. Qed.
+Print Assumptions C13_hetero_nonvacuous.
